@@ -43,6 +43,9 @@ def main(argv):
     ap.add_argument("--replay")
     ap.add_argument("--no-evidence", action="store_true")
     ap.add_argument("--workers", type=int, default=None)
+    ap.add_argument("--props", default=None, help="selftest: comma separated property ids")
+    ap.add_argument("--child-prop")
+    ap.add_argument("--child-seeds")
     args = ap.parse_args(argv)
     seed = int(os.environ.get("VERIF_SEED", "0") or 0)
 
@@ -57,7 +60,11 @@ def main(argv):
 
     if args.prop == "selftest":
         from sim import selftest
-        return selftest.main(args.tier, seed)
+        return selftest.main(args.tier, seed, args.props.split(",") if args.props else None)
+    if args.prop == "selftest-child":
+        import json
+        from sim import selftest
+        return selftest.child_main(args.child_prop, args.tier, json.loads(args.child_seeds))
     if args.prop not in ALL_PROPS:
         print(f"HARNESS-ERROR unknown property {args.prop}; claimed: {sorted(ALL_PROPS)}")
         return core.EXIT_HARNESS
